@@ -3226,7 +3226,9 @@ def dask_groupby_scan(array, by, axes: T_Axes, agg: Scan) -> DaskArray:
         array,
         dtype=array.dtype,
         meta=array._meta,
-        name="groupby-scan-preprocess",
+        # `token` (not `name`): the key must depend on the inputs, two scans computed
+        # together would otherwise share this layer
+        token="groupby-scan-preprocess",
     )
 
     scan_ = partial(chunk_scan, agg=agg)
